@@ -1,6 +1,7 @@
 import SparkxVerif.Core.Proto
 import SparkxVerif.Core.Flow
 import SparkxVerif.Gen.FlowSelectors
+import SparkxVerif.Gen.FlowCore
 
 /-! driver ops for C12 (floats as 16-hex-digit bit patterns)
 
@@ -18,6 +19,8 @@ import SparkxVerif.Gen.FlowSelectors
   `selok <class> <site> <string>`                              -> `ok <accepted 0|1> <handled 0|1>`
   `dflt <class>`                                               -> `ok func.name=0|1;…`
   an unknown weight / selector answers `err value` (the code raises `ValueError`)
+  `grp grpd gsp gspd geprn gep gepd`: the same ops evaluated with the functions GENERATED from the current source
+  (`Gen/FlowCore.lean`, tie T) instead of the hand-written model
 -/
 namespace SparkxVerif.Drv.C12
 open SparkxVerif.Proto SparkxVerif.Flow SparkxVerif.FlowSel SparkxVerif.Gen.FlowSelectors
@@ -64,18 +67,38 @@ def wq? (cls : String) (n : Nat) (kind : String) : Option (Option (P → Float))
   let s ← weightSite? cls
   pure (if s.accepted.contains kind then some (chainVal s.chain n kind) else none)
 
-def handle : List String → String
+/-- the eight estimator functions at `Float`: the hand-written model or the generated definitions -/
+structure Impl where
+  rpI : Ops Float CF → List (List P) → Option CF
+  rpD : Ops Float CF → Site → String → List Float → List (List P) → Option (List CF)
+  spR : Ops Float CF → (P → Float) → Float → List E → Float
+  spI : Ops Float CF → (P → Float) → Float → Bool → List E → Float × Float
+  spD : Ops Float CF → (P → Float) → Float → Bool → Site → String → List Float → List E → Option (List (Float × Float))
+  epR : Ops Float CF → (P → Float) → Float → List E → Float
+  epI : Ops Float CF → (P → Float) → Float → Bool → List E → Float × Float
+  epD : Ops Float CF → (P → Float) → Float → Bool → Site → String → List Float → List E → Option (List (Float × Float))
+
+def coreImpl : Impl :=
+  { rpI := rpIntegrated, rpD := rpDifferential, spR := spResolution, spI := spIntegrated, spD := spDifferential,
+    epR := epRn, epI := epIntegrated, epD := epDifferential }
+
+def genImpl : Impl :=
+  { rpI := Gen.FlowCore.rpIntegrated, rpD := Gen.FlowCore.rpDifferential, spR := Gen.FlowCore.spResolution,
+    spI := Gen.FlowCore.spIntegrated, spD := Gen.FlowCore.spDifferential, epR := Gen.FlowCore.epRn,
+    epI := Gen.FlowCore.epIntegrated, epD := Gen.FlowCore.epDifferential }
+
+def handleWith (I : Impl) : List String → String
   | ["rp", s] =>
     match sample? s with
     | some evs =>
-      match rpIntegrated O0 evs with
+      match I.rpI O0 evs with
       | some z => s!"ok {floatToHex z.re} {floatToHex z.im}"
       | none => "err value"
     | none => "bad-op"
   | ["rpd", sel, edges, s] =>
     match floatList? edges, sample? s, selSite? "ReactionPlaneFlow" with
     | some ed, some evs, some site =>
-      match rpDifferential O0 site sel ed evs with
+      match I.rpD O0 site sel ed evs with
       | some zs => "ok " ++ showPairs (zs.map fun z => (z.re, z.im))
       | none => "err value"
     | _, _, _ => "bad-op"
@@ -84,8 +107,8 @@ def handle : List String → String
     | some n, some gap, some sc, some evs =>
       match wq? "ScalarProductFlow" n kind with
       | some (some wq) =>
-        let v := spIntegrated O0 wq gap sc evs
-        s!"ok {floatToHex v.1} {floatToHex v.2} {floatToHex (spResolution O0 wq gap evs)}"
+        let v := I.spI O0 wq gap sc evs
+        s!"ok {floatToHex v.1} {floatToHex v.2} {floatToHex (I.spR O0 wq gap evs)}"
       | some none => "err value"
       | none => "bad-op"
     | _, _, _, _ => "bad-op"
@@ -94,7 +117,7 @@ def handle : List String → String
     | some n, some gap, some sc, some ed, some evs, some site =>
       match wq? "ScalarProductFlow" n kind with
       | some (some wq) =>
-        match spDifferential O0 wq gap sc site sel ed evs with
+        match I.spD O0 wq gap sc site sel ed evs with
         | some vs => "ok " ++ showPairs vs
         | none => "err value"
       | some none => "err value"
@@ -104,7 +127,7 @@ def handle : List String → String
     match n.toNat?, floatOfHex? gap, evs? r r with
     | some n, some gap, some evs =>
       match wq? "EventPlaneFlow" n kind with
-      | some (some wq) => s!"ok {floatToHex (epRn O0 wq gap evs)}"
+      | some (some wq) => s!"ok {floatToHex (I.epR O0 wq gap evs)}"
       | some none => "err value"
       | none => "bad-op"
     | _, _, _ => "bad-op"
@@ -113,7 +136,7 @@ def handle : List String → String
     | some n, some gap, some sc, some res, some evs =>
       match wq? "EventPlaneFlow" n kind with
       | some (some wq) =>
-        let v := epIntegrated (floatOps (fun _ => res)) wq gap sc evs
+        let v := I.epI (floatOps (fun _ => res)) wq gap sc evs
         s!"ok {floatToHex v.1} {floatToHex v.2}"
       | some none => "err value"
       | none => "bad-op"
@@ -124,12 +147,17 @@ def handle : List String → String
     | some n, some gap, some sc, some res, some ed, some evs, some site =>
       match wq? "EventPlaneFlow" n kind with
       | some (some wq) =>
-        match epDifferential (floatOps (fun _ => res)) wq gap sc site sel ed evs with
+        match I.epD (floatOps (fun _ => res)) wq gap sc site sel ed evs with
         | some vs => "ok " ++ showPairs vs
         | none => "err value"
       | some none => "err value"
       | none => "bad-op"
     | _, _, _, _, _, _, _ => "bad-op"
+  | _ => "bad-op"
+
+def genOps : List String := ["rp", "rpd", "sp", "spd", "eprn", "ep", "epd"]
+
+def handle : List String → String
   | ["selok", cls, what, s] =>
     match (selectorSites ++ weightSites).find? (fun x => x.cls == cls && x.what == what), unhex? s with
     | some site, some str =>
@@ -140,6 +168,11 @@ def handle : List String → String
     | some ps => "ok " ++ ";".intercalate (ps.map fun p =>
         p.func ++ "." ++ p.name ++ "=" ++ (if p.defaultOk then "1" else "0"))
     | none => "bad-op"
+  | op :: rest =>
+    if genOps.contains op then handleWith coreImpl (op :: rest)
+    else match genOps.find? (fun o => "g" ++ o == op) with
+      | some o => handleWith genImpl (o :: rest)
+      | none => "bad-op"
   | _ => "bad-op"
 
 end SparkxVerif.Drv.C12
